@@ -152,7 +152,7 @@ func NewNameSystem(r routing.ValueStore, opts ...Option) (NameSystem, error) {
 			if err != nil {
 				return nil, err
 			}
-			staticMap[ipns.NamespacePrefix+key] = &cacheEntry{val: value, ttl: 0}
+			staticMap[resolveCacheKey(key)] = &cacheEntry{val: value, ttl: 0}
 		}
 	}
 
@@ -216,7 +216,10 @@ func (ns *namesys) resolveOnceAsync(ctx context.Context, p path.Path, options Re
 		return out
 	}
 
-	if resolvedBase, ttl, lastMod, ok := ns.cacheGet(resolvablePath.String()); ok {
+	// Publish fills the cache under the same key, so a resolution that follows
+	// a publish sees the published value whichever way the name is written.
+	key := resolveCacheKey(segments[1])
+	if resolvedBase, ttl, lastMod, ok := ns.cacheGet(key); ok {
 		p, err = joinPaths(resolvedBase, p)
 		span.SetAttributes(attribute.Bool("CacheHit", true))
 		span.RecordError(err)
@@ -262,7 +265,7 @@ func (ns *namesys) resolveOnceAsync(ctx context.Context, p path.Path, options Re
 			case res, ok := <-resCh:
 				if !ok {
 					if best != (AsyncResult{}) {
-						ns.cacheSet(resolvablePath.String(), best.Path, best.TTL, best.LastMod)
+						ns.cacheSet(key, best.Path, best.TTL, best.LastMod)
 					}
 					return
 				}
@@ -329,6 +332,12 @@ func (ns *namesys) Publish(ctx context.Context, name ci.PrivKey, value path.Path
 	}
 	if ttEOL := time.Until(publishOpts.EOL); ttEOL < ttl {
 		ttl = ttEOL
+	}
+	if ttl <= 0 {
+		// Nothing to cache (cacheSet ignores such an entry): make sure the
+		// previously cached value does not outlive this publish.
+		ns.cacheInvalidate(cacheKey)
+		return nil
 	}
 	ns.cacheSet(cacheKey, value, ttl, time.Now())
 	return nil
